@@ -120,6 +120,56 @@ def _contains_modelled(x):
     return False
 
 
+class _GuardedUfunc:
+    """a NumPy ufunc without an element-wise model: usable on concrete metadata; on proxies only the methods modelled here"""
+    def __init__(self, name, uf):
+        self._name = name
+        self._uf = uf
+
+    def _guard(self, what, a, k):
+        if any(_contains_modelled(x) for x in a) or any(_contains_modelled(x) for x in k.values()):
+            raise Unsupported(f"np.{self._name}{what} on symbolic data (no model)")
+
+    def __call__(self, *a, **k):
+        self._guard("", a, k)
+        return self._uf(*a, **k)
+
+    def reduceat(self, arr, indices, *a, **k):
+        if not isinstance(arr, A):
+            self._guard(".reduceat", (arr, indices) + a, k)
+            return self._uf.reduceat(arr, indices, *a, **k)
+        if self._name != "add" or a or k or arr.ndim != 1:
+            raise Unsupported(f"np.{self._name}.reduceat on symbolic data (no model)")
+        idx = indices.cells if isinstance(indices, A) else [int(i) for i in real_np.asarray(indices).ravel()]
+        if any(is_sym(i) for i in idx):
+            raise Unsupported("np.add.reduceat at symbolic offsets")
+        idx = [int(i) for i in idx]
+        n = len(arr)
+        cells = arr.cells
+        out = []
+        for j, lo in enumerate(idx):
+            if not 0 <= lo < n:
+                raise IndexError(f"index {lo} out-of-bounds in add.reduceat [0, {n})")
+            hi = idx[j + 1] if j + 1 < len(idx) else n
+            if lo < hi:
+                acc = cells[lo]
+                for c in cells[lo + 1:hi]:
+                    acc = acc + c
+                out.append(acc)
+            else:
+                out.append(cells[lo])          # NumPy's documented quirk: an empty segment yields arr[lo]
+        return A(out, arr.dtype)
+
+    def __getattr__(self, a):
+        m = getattr(self._uf, a)
+        if callable(m):
+            def guarded(*args, **kw):
+                self._guard("." + a, args, kw)
+                return m(*args, **kw)
+            return guarded
+        return m
+
+
 class NPShim:
     ndarray = A
     nan = float("nan")
@@ -127,6 +177,8 @@ class NPShim:
 
     def __getattr__(self, name):
         obj = getattr(real_np, name)
+        if isinstance(obj, real_np.ufunc):
+            return _GuardedUfunc(name, obj)
         if callable(obj) and not isinstance(obj, type):
             # a numpy function without a model: fine on concrete metadata, but never let a proxy leak into real numpy
             def guarded(*a, **k):
